@@ -1196,6 +1196,9 @@ var c19Fixed = []c19Case{
 	{style: 3, limit: 2048, tokFail: 1, msgs: []c19Msg{{role: "u", content: "m0q a"}, {role: "a", content: "m1q b"}, {role: "u", content: "m2q c"}}},                                 // tokenizer error while measuring
 	{style: c19StyleGenerated, src: `{{ range .Messages }}{{ .Content }}{{ .Nope }}{{ end }}`, limit: 2048, msgs: []c19Msg{{role: "u", content: "m0q a"}, {role: "a", content: "m1q b"}}}, // Execute error while measuring
 	{style: 1, limit: 10},                                                                                                                                                          // empty conversation
+	// first failure is not longest-fitting with a whitespace tokenizer: run [2:] = `[system|a\n\nc][user|d]` is 2 tokens,
+	// runs [1:] and [0:] are 1 token (Lean: first_failure_not_longest_inplace_fields); counted as spec_nonmonotone_cost
+	{style: 3, limit: 1, msgs: []c19Msg{{role: "s", content: "a"}, {role: "u", content: "b"}, {role: "s", content: "c"}, {role: "u", content: "d"}}},
 	// finding F5 (typed image tags), one directed case per shape: typed tag of an own image; typed tag without any
 	// image; unfinished typed tag that the template's `]` completes; leading zeros
 	{style: 3, proj: 2, limit: 2048, msgs: []c19Msg{{role: "u", content: "m0q see [img-0]", imgs: []c19Img{{1, true}}}}},
